@@ -8,7 +8,7 @@
     md6.U par|seq <level|L> <index>                                  node id            (model, spec)
     md6.rounds <d> <key>                                             default rounds     (model, spec)
   The spec column is `-` outside the domain of the MD6 report (d ∉ 1..512, key > 64 bytes, L > 64,
-  r ∉ 1..4095, bitlen = 0 with a non-empty message) and `ERR` where the caller claims more bits than the message has.
+  r ∉ 1..4095) and `ERR` where the caller claims more bits than the message has.
 -/
 import Driver.Wire
 import Model.Md6
@@ -24,7 +24,6 @@ def specParams? (d L : Nat) (rounds : Option Nat) (key : List Nat) : Option Spec
 def specBits? (M : List Nat) (bitlen : Option Nat) : Option (Except Unit Nat) :=
   match bitlen with
   | none => some (.ok (8 * M.length))
-  | some 0 => if M.length = 0 then some (.ok 0) else none
   | some b => if b > 8 * M.length then some (.error ()) else some (.ok b)
 
 def withSpec (P? : Option Spec.Md6.Params) (M : List Nat) (bitlen : Option Nat)
